@@ -221,7 +221,7 @@ def run_tlc(module: str, cfg: str, workdir: str, env: Optional[Dict[str, str]] =
     """Run TLC on spec/<module>.tla with spec/<cfg>. Metadata goes to workdir/meta-<module>-<n> (removed)."""
     meta = os.path.join(workdir, f"meta-{module}-{os.getpid()}-{uuid.uuid4().hex[:10]}")
     os.makedirs(meta, exist_ok=True)
-    cmd = ["java", "-XX:+UseParallelGC", f"-Xmx{heap_gb}g", "-Xss32m", "-cp", JAR, "tlc2.TLC",
+    cmd = ["java", "-XX:+UseParallelGC", f"-Xmx{heap_gb}g", "-Xss512m", "-cp", JAR, "tlc2.TLC",
            "-workers", str(workers), "-metadir", meta, "-noGenerateSpecTE",
            "-config", os.path.join(spec_dir, cfg)]
     if coverage:
